@@ -85,6 +85,31 @@ class Cli:
         self.injected += inj
         return rc, out, err, inj
 
+    def run_slow_pipe(self, argv, cwd, timeout=120):
+        """stdout of the tool is a NON-BLOCKING pipe that is drained slowly: write() accepts only part of a request (a genuine short
+        write, which strace cannot simulate).  -> (rc, bytes received)"""
+        import fcntl
+        import time
+        self.runs += 1
+        r, w = os.pipe()
+        fcntl.fcntl(w, fcntl.F_SETFL, fcntl.fcntl(w, fcntl.F_GETFL) | os.O_NONBLOCK)
+        p = subprocess.Popen(list(argv), cwd=cwd, stdout=w, stderr=subprocess.DEVNULL, stdin=subprocess.DEVNULL, env=self.env)
+        os.close(w)
+        chunks = []
+        t0 = time.time()
+        while True:
+            b = os.read(r, 3001)
+            if not b:
+                break
+            chunks.append(b)
+            if len(chunks) % 4 == 0:
+                time.sleep(0.0005)
+            if time.time() - t0 > timeout:
+                p.kill()
+                break
+        os.close(r)
+        return p.wait(), b''.join(chunks)
+
     def count_syscalls(self, argv, cwd, name, path_filter, stdin=None):
         log = os.path.join(cwd, 'count.log')
         cmd = ['strace', '-f', '-o', log, '-e', 'trace=' + name, '-P', os.path.join(cwd, path_filter)] + list(argv)
@@ -164,6 +189,7 @@ def run_c19(ctx):
     # ---- I/O faults
     for size in ([0, 100, 3 * B + 5] if not ctx.thorough else [0, 1, 100, B - 16, B, 2 * B + 7, 3 * B + 5, 6 * B]):
         jobs.append(('iofault', size, password(rng)))
+    jobs.append(('slowpipe', 400123 if not ctx.thorough else 1500007, password(rng)))
     jobs.append(('genkey',))
     # ---- asconsum
     jobs.append(('sum', sizes))
@@ -177,6 +203,8 @@ def run_c19(ctx):
                 return tamper(ctx, cli, random.Random(zlib.crc32(repr(job).encode()) ^ ctx.seed), *job[1:])
             if job[0] == 'iofault':
                 return iofault(ctx, cli, random.Random(zlib.crc32(repr(job).encode()) ^ ctx.seed), *job[1:])
+            if job[0] == 'slowpipe':
+                return slowpipe(ctx, cli, random.Random(zlib.crc32(repr(job).encode()) ^ ctx.seed), *job[1:])
             if job[0] == 'genkey':
                 return genkey(ctx, cli)
             if job[0] == 'sum':
@@ -423,6 +451,38 @@ def iofault(ctx, cli, rng, size, pw):
             expect_ok('getrandom:error=EINTR:when=1', None, 'getrandom-EINTR', 1)
     if len(ctx.samples) < 6:
         ctx.samples.append({'kind': 'iofault', 'size': size, 'faults': 'k-th write ENOSPC / EINTR, k-th read EIO / EINTR for every k; open EACCES; getrandom ENOSYS/EINTR'})
+    shutil.rmtree(d, ignore_errors=True)
+
+
+def slowpipe(ctx, cli, rng, size, pw):
+    """the tool writes to a non-blocking pipe that is drained slowly, so write() returns short counts: the bytes that arrive must
+    still be exactly the output (decrypt: the plaintext; encrypt: something that decrypts to the plaintext)"""
+    d = cli.workdir()
+    data = content(rng, size, 'random')
+    with open(os.path.join(d, 'in.bin'), 'wb') as f:
+        f.write(data)
+    ctx.distinct.add('slowpipe|size%d' % size)
+    rc, _, err, _ = cli.run([cli.crypt, '-e', '-p', pw, '-o', 'enc.bin', 'in.bin'], d)
+    if rc != 0:
+        vio(ctx, cli, 'C19', 'asconcrypt:roundtrip:encrypt-failed:slowpipe', exit=rc, size=size)
+    else:
+        rc1, got = cli.run_slow_pipe([cli.crypt, '-d', '-p', pw, '-o', '-', 'enc.bin'], d)
+        if rc1 == 0 and got != data:
+            first = next((i for i in range(min(len(got), len(data))) if got[i] != data[i]), min(len(got), len(data)))
+            vio(ctx, cli, 'C19', 'asconcrypt:roundtrip:content-differs:decrypt-to-slow-pipe', size=size, received=len(got), first_difference=first, exit=rc1)
+        elif rc1 != 0:
+            ctx.counters['slow_pipe_runs_that_failed_closed'] = ctx.counters.get('slow_pipe_runs_that_failed_closed', 0) + 1
+        rc2, enc = cli.run_slow_pipe([cli.crypt, '-e', '-p', pw, '-o', '-', 'in.bin'], d)
+        if rc2 == 0:
+            with open(os.path.join(d, 'enc2.bin'), 'wb') as f:
+                f.write(enc)
+            rc3, _, _, _ = cli.run([cli.crypt, '-d', '-p', pw, '-o', 'dec2.bin', 'enc2.bin'], d)
+            got2 = open(os.path.join(d, 'dec2.bin'), 'rb').read() if os.path.exists(os.path.join(d, 'dec2.bin')) else None
+            if rc3 != 0 or got2 != data:
+                vio(ctx, cli, 'C19', 'asconcrypt:roundtrip:content-differs:encrypt-to-slow-pipe', size=size, received=len(enc), decrypt_exit=rc3)
+        else:
+            ctx.counters['slow_pipe_runs_that_failed_closed'] = ctx.counters.get('slow_pipe_runs_that_failed_closed', 0) + 1
+        ctx.counters['slow_pipe_runs'] = ctx.counters.get('slow_pipe_runs', 0) + 2
     shutil.rmtree(d, ignore_errors=True)
 
 
